@@ -141,9 +141,16 @@ func (db *DB) VerifC10RawPendingSnapshot() []byte {
 func (db *DB) VerifC10RawSnapshot(id order.BatchID) []byte {
 	var res []byte
 	_ = db.View(func(tx *bbolt.Tx) error {
-		_, seqBucket, indexBucket, err := getSnapshotBuckets(tx)
-		if err != nil {
-			return err
+		// navigate the buckets directly (independent of the signature of
+		// the unexported helper getSnapshotBuckets)
+		top := tx.Bucket(batchSnapshotBucketKey)
+		if top == nil {
+			return nil
+		}
+		seqBucket := top.Bucket(batchSnapshotSeqBucketKey)
+		indexBucket := top.Bucket(batchSnapshotBatchIDIndexBucketKey)
+		if seqBucket == nil || indexBucket == nil {
+			return nil
 		}
 		seq := indexBucket.Get(id[:])
 		if seq == nil {
